@@ -4,6 +4,7 @@ import (
 	"bytes"
 	"fmt"
 	"hash/fnv"
+	"os"
 	"runtime"
 	"sort"
 	"strconv"
@@ -50,6 +51,9 @@ type Config struct {
 	PoolPolicy int
 	// Policy <0: drawn from the tape.
 	Policy int
+	// CrashAt > 0: the simulated process is killed (SIGKILL: no deferred function, no flush,
+	// no clean-up) when its CrashAt-th scheduling step would begin.
+	CrashAt int
 }
 
 type Result struct {
@@ -60,6 +64,7 @@ type Result struct {
 	Policy    string
 	Exited    bool
 	ExitCode  int
+	Killed    bool   // the run was ended by an injected crash (Config.CrashAt)
 	Panic     string // non-empty: a task panicked (value + top frames)
 	Deadlock  bool
 	// LiveAtReturn: tasks still alive when the root task (the simulated main) returned and
@@ -370,6 +375,12 @@ func Knob(name string, def int) int {
 	return def
 }
 
+// Getpid replaces os.Getpid: the knob "pid" when the run sets it (two runs of a scenario may
+// thus have the same process id, as happens after a reboot or in a container), else the real one.
+func Getpid() int {
+	return Knob("pid", os.Getpid())
+}
+
 // NowUS is the simulated clock in microseconds.
 func NowUS() int64 {
 	s := current()
@@ -575,6 +586,11 @@ func Run(cfg Config, root func()) Result {
 		s.tail = append(s.tail, strconv.Itoa(pick))
 		s.steps++
 		s.clockUS++
+		if cfg.CrashAt > 0 && s.steps >= cfg.CrashAt {
+			res.Exited, res.ExitCode, res.Killed = true, 137, true
+			s.mu.Unlock()
+			break
+		}
 		if s.steps > cfg.MaxSteps {
 			res.StepCap = true
 			res.Blocked = s.describe()
